@@ -85,6 +85,76 @@ func stressMode(args []string) int {
 		} else {
 			fmt.Printf("ok %s incr=%d update=%d\n", kind, n, d.N)
 		}
+		// CAS order is commit order: after N concurrent writers of one key, the document carries the largest CAS any of them
+		// was given, and the collection's high-water mark is not below it
+		var maxCas atomic.Uint64
+		var wg2 sync.WaitGroup
+		for g := 0; g < 8; g++ {
+			wg2.Add(1)
+			go func(g int) {
+				defer wg2.Done()
+				c := cs[g%2]
+				for i := 0; i < 150; i++ {
+					cas, err := c.SetXattrs(ctx, "casdoc", map[string][]byte{"x": []byte(fmt.Sprintf("%d", g*1000+i))})
+					if err != nil {
+						if i == 0 {
+							_ = c.SetRaw("casdoc", 0, nil, []byte("{}"))
+						}
+						continue
+					}
+					for {
+						old := maxCas.Load()
+						if cas <= old || maxCas.CompareAndSwap(old, cas) {
+							break
+						}
+					}
+				}
+			}(g)
+		}
+		// meanwhile a sampler reads the stored row and the collection's mark: both may only grow (every later commit carries a larger CAS)
+		stop := make(chan struct{})
+		var decreases atomic.Int64
+		var firstDecrease atomic.Value
+		go func() {
+			var lastRow, lastColl uint64
+			for {
+				select {
+				case <-stop:
+					return
+				default:
+				}
+				if r, err := rosmar.VerifRawRow(cs[0], "casdoc"); err == nil && r.Found {
+					if r.Cas < lastRow {
+						if decreases.Add(1) == 1 {
+							firstDecrease.Store(fmt.Sprintf("document CAS went from %d to %d", lastRow, r.Cas))
+						}
+					}
+					lastRow = r.Cas
+				}
+				if _, cc, err := rosmar.VerifLastCas(cs[0]); err == nil {
+					if cc < lastColl {
+						if decreases.Add(1) == 1 {
+							firstDecrease.Store(fmt.Sprintf("collection high-water mark went from %d to %d", lastColl, cc))
+						}
+					}
+					lastColl = cc
+				}
+			}
+		}()
+		wg2.Wait()
+		close(stop)
+		if decreases.Load() > 0 {
+			fmt.Printf("violation %s-casorder: %v (%d decreases seen by a concurrent reader): a later commit carried a smaller CAS\n", kind, firstDecrease.Load(), decreases.Load())
+			bad++
+		}
+		row, _ := rosmar.VerifRawRow(cs[0], "casdoc")
+		_, collCas, _ := rosmar.VerifLastCas(cs[0])
+		if row.Cas != maxCas.Load() || collCas < maxCas.Load() {
+			fmt.Printf("violation %s-casorder: the largest CAS handed to a writer of the key is %d but the document carries %d (collection high-water mark %d)\n", kind, maxCas.Load(), row.Cas, collCas)
+			bad++
+		} else {
+			fmt.Printf("ok %s-casorder cas=%d\n", kind, row.Cas)
+		}
 		_ = b1.CloseAndDelete(ctx)
 		b2.Close(ctx)
 		if dir != "" {
